@@ -24,11 +24,42 @@ PROPS = {
     "C32": dict(
         engine="p_themes", quick_checks=300, thorough_checks=8000, quick_shards=14, thorough_shards=16, quick_budget_s=400, thorough_budget_s=3000,
         level="exploration",
-        rule="TODO",
+        rule="gen.GenDiagram (1-14 objects, nesting <=3, all shapes, containers, class/sql_table, grids, sequence diagrams, constant nears, icons, "
+             "styles incl. 3d/multiple, tooltips/links, connections leaf/container/self-loop/parallel with labels and arrowhead labels; no explicit sizes, no "
+             "label/icon positions) laid out with ELK (the CLI switches to ELK for text output); 3/4 of the cases in class 'ascii' (ASCIIOnly labels and plain names; "
+             "what is left non-ASCII is transliterated so the whole source is 7-bit), 1/4 in class 'unicode' (hostile names, non-ASCII labels, markdown/code/latex "
+             "blocks); every laid-out diagram is rendered by d2ascii.NewASCIIartist().Render with charset.ASCII and charset.Unicode and Scale nil / {nil,0.5,2} / one "
+             "of {0.25,0.75,1,1.5,3}; core = 13 ASCII + 3 Unicode snippets. Oracle: Render neither panics (own recover, signature = innermost d2 frame) nor "
+             "returns an error; class ascii + charset.ASCII: every rune of the output is < 0x80; both charsets, both classes: the trimmed single-line label of "
+             "every plain shape (exported type rectangle/square, no child, no icon, no language, label position INSIDE_MIDDLE_CENTER) occurs in the output at "
+             "least as often as plain shapes carry it. A lost label is classified by construct (non-ASCII label / label has more characters than the box has "
+             "columns / a route crosses the box / endpoint of a labelled connection / in-sequence, multiple, 3d / plain). non-trivial = >=3 shapes and >=1 "
+             "labelled connection.",
+        assumptions=["the input domain is the exported diagram: labels are compared as exported (after text-transform / caps-lock)",
+                     "a label lost because the LAYOUT puts another unrelated shape over the box (e.g. two objects with the same constant near) is counted gray",
+                     "RenderOpts.Scale is passed as the CLI does; the renderer currently ignores it",
+                     "class 'unicode' with charset.ASCII: nothing is asserted about the output bytes"],
     ),
     "C47": dict(
         engine="p_themes", quick_checks=400, thorough_checks=10000, quick_shards=14, thorough_shards=16, quick_budget_s=400, thorough_budget_s=3000,
         level="exploration",
-        rule="TODO",
+        rule="own generator: 2-5 objects drawn from plain/styled shapes (all simple shapes; bold, italic, mono, underline, text-transform uppercase/lowercase/"
+             "capitalize/none; tooltip, tooltip.near, link), class (fields, methods, visibility), sql_table (columns, types, constraints incl. free text), code "
+             "blocks (go/js/txt/python), markdown blocks (headings 1-6, bold/italic/both, code spans, lists, quotes, tables, strike-through, links, <kbd>, HTML "
+             "entities), text shapes, containers; 1-3 connections with styled labels and source/target arrowhead labels; 1/5 with a d2-legend; words of 1-8 "
+             "runes from 30 Unicode ranges (Latin-1, Latin Extended-A/B/Additional, IPA, modifiers, combining marks, Greek (+Extended), Cyrillic (+Supplement), "
+             "punctuation, super/subscripts, currency, letterlike, number forms, arrows, math, technical, box drawing, geometric, symbols, dingbats, "
+             "presentation forms; CJK, kana, emoji, math alphanumerics that the fonts lack) or ASCII; themes 0,1,3,200,300,301 (caps-lock + mono),302,303; dagre, "
+             "sketch off; 1/4 of the cases also run appendix.Append (numbers, tooltip and link text; full fonts). core = 8 snippets x themes 0,300,301,200. "
+             "Oracle: every @font-face with a data:application/font-woff;base64 URI is decoded (WOFF1 -> sfnt, zlib tables; raw sfnt accepted) and parsed with "
+             "x/image/font/sfnt; own CSS reader resolves font-family for every drawn character-data fragment (<text>/<tspan> and HTML inside <foreignObject>; not "
+             "style/title/desc) by selector matching, specificity, order and inheritance over all <style> sheets; for every rune (controls and U+FEFF excluded) "
+             "drawn in a family with an embedded face: if the complete d2 face of that family/style (FontFaces.Get) has a glyph, the embedded face has one too and "
+             "LoadGlyph succeeds; font-family lists / rules with selectors the reader does not understand add candidates (then one candidate suffices). "
+             "non-trivial = >=10 distinct non-ASCII runes drawn.",
+        assumptions=["a fragment whose CSS family has no @font-face in the document (or no font-family at all, e.g. a positioned markdown tooltip in a diagram "
+                     "without markdown labels) is outside the statement (it speaks of embedded subsets): labelled, not asserted",
+                     "characters produced by CSS (list markers) are not character data of the SVG and are not considered",
+                     "family names map to d2 faces by their suffix (-font-regular/bold/italic/semibold/mono/mono-bold/mono-italic) and Diagram.FontFamily/MonoFontFamily"],
     ),
 }
